@@ -204,13 +204,46 @@ class Run:
                     margin_requirement=D(c["req"]))
             self._mk_cond = mk
             ls = self.shared_lending
-            if ls is None:
+            style = sc.get("lend_style", "plain") if ls is None else "plain"
+            if ls is None and style == "subclass":
+                run_ = self
+
+                class OwnConditions(lending.MarginLoans):
+                    """Conditions are answered by an override of the public get_conditions()."""
+
+                    def get_conditions(self, symbol):
+                        c_ = run_.cond(symbol)
+                        if c_ is None:
+                            from basana.core import errors as _errors
+                            raise _errors.Error(f"No lending conditions for {symbol}")
+                        return mk(c_)
+
+                    def set_conditions(self, symbol, conditions):
+                        pass      # run_.lend is the single source (set_cond actions update it)
+                ls = OwnConditions(self.lend["quote"])
+                self.stats["lend_style_subclass"] += 1
+            elif ls is None:
                 ls = lending.MarginLoans(self.lend["quote"],
                                          default_conditions=mk(self.lend["default"]) if self.lend["default"] else None)
                 for s, c in self.lend["per_symbol"].items():
                     ls.set_conditions(s, mk(c))
             self.ls = ls
-            kw["lending_strategy"] = ls
+            if style == "wrapper":
+                from basana.backtesting.lending import base as _lbase
+                inner = ls
+
+                class Delegating(_lbase.LendingStrategy):
+                    """A strategy of the application's own that hands everything over to a MarginLoans it owns."""
+
+                    def set_exchange_context(self, loan_mgr, exchange_context):
+                        inner.set_exchange_context(loan_mgr, exchange_context)
+
+                    def create_loan(self, symbol, amount, created_at):
+                        return inner.create_loan(symbol, amount, created_at)
+                kw["lending_strategy"] = Delegating()
+                self.stats["lend_style_wrapper"] += 1
+            else:
+                kw["lending_strategy"] = ls
         if self.sc.get("base_fee_pct"):
             # a custom fee scheme (public FeeStrategy interface) charging buys in the asset they receive
             pct = D(self.sc["base_fee_pct"])
@@ -241,6 +274,9 @@ class Run:
             for (when, o, h, low, c, vol) in lst:
                 src.push(bar.BarEvent(when, bar.Bar(when - dur, p, o, h, low, c, vol)))
             self.e.add_bar_source(src)
+            if len(lst) % 4 == 1:
+                self.e.add_bar_source(src)      # registering a feed again is harmless: every bar is still matched once
+                self.stats["feeds_registered_twice"] += 1
         for pname, lst2 in self.bars2_by_pair.items():
             src2 = event.FifoQueueEventSource()
             for (when, o, h, low, c, vol, span) in lst2:
@@ -262,7 +298,9 @@ class Run:
             from basana.core import dispatcher as _disp
             self.stats["decoy_exchanges"] += 1
             d2 = _disp.backtesting_dispatcher()
-            kw2: Dict[str, Any] = {"fee_strategy": fees.Percentage(D("7.77"), D("3"))}
+            # (a stateless fee scheme object may well be shared by both accounts)
+            kw2: Dict[str, Any] = {"fee_strategy": kw["fee_strategy"] if self.fee and not self.sc.get("base_fee_pct")
+                                   else fees.Percentage(D("7.77"), D("3"))}
             if self.lend:
                 kw2["lending_strategy"] = lending.MarginLoans(self.lend["quote"], default_conditions=self._mk_cond(
                     {"interest_symbol": self.lend["quote"], "pct": "99", "period_s": 60, "min": "1", "req": "5"}))
@@ -368,6 +406,10 @@ class Run:
                     self.stats["conditions_changed"] += 1
             elif op == "query":
                 await self.listing_check(await self.snapshot(("query",)), force=True)
+            elif op == "schedule":
+                when = self.d.now() + datetime.timedelta(minutes=act["minutes"])
+                self.d.schedule(when, self._mk_job(act["action"]))
+                self.stats["jobs_scheduled_from_handlers"] += 1
         except Exception as ex:  # API errors are expected outcomes; anything else is recorded as an anomaly
             from basana.core import errors as core_errors
             if not isinstance(ex, core_errors.Error):
@@ -434,8 +476,16 @@ class Run:
     def equity_and_used(self, snap: Snap) -> Optional[Tuple[F, F]]:
         eq = F(0)
         used = F(0)
-        for s, (a, h, b) in snap.bal.items():
+        principal: Dict[str, D] = collections.defaultdict(D)
+        if not snap.loans_stale:
+            for lo in snap.loans.values():
+                if lo.is_open:
+                    principal[lo.borrowed_symbol] += lo.borrowed_amount
+        for s in set(snap.bal) | set(principal):
+            a, h, b = snap.bal.get(s, (ZERO, ZERO, ZERO))
             net = a + h - b
+            # "everything borrowed": the borrowed balance, and in any case the loans the exchange itself lists as open
+            b = max(b, principal.get(s, ZERO) + self.opening_debt.get(s, ZERO))
             c = self.cond(s)
             px = self.price_in_quote(s, snap)
             if net > 0:
@@ -1438,7 +1488,14 @@ class Run:
             es = [_ostate(x) for _, x in evs]
             if any(a == b for a, b in zip(es, es[1:])):
                 self.v("C05", "duplicate_event", f"{oid}: {es}")
-            if es != self.polled[oid]:
+            two_feeds = m["pair"] in self.bars2_by_pair
+            if two_feeds:
+                # two bars of the pair are matched within one dispatch pass: the states between them are reported by events
+                # but cannot be polled - the polled sequence is then a subsequence with the same ends
+                it = iter(es)
+                sub_ok = all(any(x == y for y in it) for x in self.polled[oid]) and es[:1] == self.polled[oid][:1] \
+                    and es[-1:] == self.polled[oid][-1:]
+            if (not two_feeds and es != self.polled[oid]) or (two_feeds and not sub_ok):
                 self.v("C05", "events_ne_state_sequence",
                        f"{m['kind']} {oid}: events {es} but polled states {self.polled[oid]}",
                        mechanism=self._classify_survivor())
@@ -1490,7 +1547,7 @@ class Run:
                         self.v("C03", "fill_not_after_submission",
                                f"order {i} accepted at {self.meta[i]['t']} filled by the bar of {when}")
                 total = sum(f.values(), ZERO)
-                if self.liq is not None:
+                if self.liq is not None and pname not in self.bars2_by_pair:
                     L = vol * self.liq[0] / 100
                     self.stats["liquidity_bars_checked"] += 1
                     if total > L:
@@ -1682,6 +1739,12 @@ def run_scenario(sc: Dict[str, Any], res: ShardResult, listing_stride: int = 6, 
     run.listing_stride = listing_stride
     run.shared_lending = shared_lending
     loop = asyncio.new_event_loop()
+    # part of the runs have the library's loggers at DEBUG level (the messages go nowhere): logging is not behaviour
+    blog = logging.getLogger("basana")
+    old_level = blog.level
+    if len(repr(sorted(sc["actions"]))) % 4 == 1:
+        blog.setLevel(logging.DEBUG)
+        run.stats["debug_logging_runs"] += 1
     try:
         asyncio.set_event_loop(loop)
         loop.run_until_complete(run.run())
@@ -1691,6 +1754,7 @@ def run_scenario(sc: Dict[str, Any], res: ShardResult, listing_stride: int = 6, 
         run.stats["runs_aborted"] += 1
         run.aborted = traceback.format_exc()[-1200:]
     finally:
+        blog.setLevel(old_level)
         loop.close()
         asyncio.set_event_loop(None)
     return run
